@@ -7,16 +7,17 @@ import os
 import subprocess
 import sys
 
+REPO = os.environ.get('SEED_REPO', '/repo')      # a private copy of /repo may be used while /repo is busy
 seed = os.path.abspath(sys.argv[1])
 props = sys.argv[2:]
 patch = os.path.join(seed, 'patch.diff')
-assert subprocess.run(['git', '-C', '/repo', 'status', '--porcelain', '--untracked-files=no'],
-                      stdout=subprocess.PIPE, text=True).stdout.strip() == '', '/repo is not clean'
+assert subprocess.run(['git', '-C', REPO, 'status', '--porcelain', '--untracked-files=no'],
+                      stdout=subprocess.PIPE, text=True).stdout.strip() == '', REPO + ' is not clean'
 res = {}
 try:
-    subprocess.run(['git', '-C', '/repo', 'apply', patch], check=True)
+    subprocess.run(['git', '-C', REPO, 'apply', patch], check=True)
     for p in props:
-        env = dict(os.environ, VERIF_SEED=os.environ.get('VERIF_SEED', '1'))
+        env = dict(os.environ, VERIF_SEED=os.environ.get('VERIF_SEED', '1'), SCALES_REPO=REPO)
         q = subprocess.run(['./check', p, '--tier', os.environ.get('TIER', 'quick')], cwd='/verif', env=env,
                            stdout=subprocess.PIPE, stderr=subprocess.STDOUT, text=True)
         lines = [l for l in q.stdout.splitlines() if l.startswith(('VIOLATION', 'KNOWN-FINDING')) or ' tier=' in l]
@@ -25,5 +26,5 @@ try:
         for l in lines:
             print('   ', l[:200])
 finally:
-    subprocess.run(['git', '-C', '/repo', 'checkout', '--', '.'], check=True)
+    subprocess.run(['git', '-C', REPO, 'checkout', '--', '.'], check=True)
 json.dump(res, open(os.path.join(seed, 'check_result.json'), 'w'), indent=1)
